@@ -114,66 +114,171 @@ def _domain(ctx):
     return cells
 
 
+def _dtype_of(ctx, chain, depth, mname, kind, uns, prec):
+    """Concrete partial evaluation of one type cell: the parameter's precision/unsigned flags are bound to the cell's
+    constants, the isinstance tests are decided by the cell's kind, literal tables / conditional expressions / string
+    concatenations fold away.  -> the emitted type string, None (no type bound), or raises Unrecognised."""
+    from ..flowexpr import consistent, explore
+    defs = [(m, c, methods(c)[mname]) for m, c in chain if mname in methods(c)]
+    if depth >= len(defs):
+        raise Unrecognised(f"super().{mname} has no further definition")
+    m_, c_, fn = defs[depth]
+    ctx.functions_analysed.add(f"{m_.relpath}::{c_.name}.{mname}")
+    par = fn.args.args[1].arg if len(fn.args.args) > 1 else "param"
+    env = {f"{par}.unsigned": ast.Constant(value=bool(uns))}
+    dflt = {"int": 32, "float": 64}.get(kind)
+    if prec is not None or dflt is not None:
+        env[f"{par}.precision"] = ast.Constant(value=prec if prec is not None else dflt)
+    env["IntegerType.precision"] = ast.Constant(value=32)
+    env["FloatType.precision"] = ast.Constant(value=64)
+    KIND = {"str": "StringType", "bool": "BooleanType", "int": "IntegerType", "float": "FloatType"}
+
+    def atom(e):
+        if isinstance(e, ast.Call) and dotted_name(e.func) == "isinstance" and len(e.args) == 2 and norm(e.args[0]) == par:
+            t = e.args[1]
+            names = [norm(x) for x in (t.elts if isinstance(t, (ast.Tuple, ast.List)) else [t])]
+            if "NumberType" in names and kind in ("int", "float"):
+                return True
+            return KIND[kind] in names
+        return None
+    ex = explore(fn, env=env)
+    cs, unk = consistent(ex.paths, atom)
+    if unk:
+        raise Unrecognised(f"condition not interpretable: {sorted(set(unk))[0][:100]}")
+    outs = set()
+    for q in cs:
+        if q.status == "raise":
+            outs.add(("raise", None))
+            continue
+        r = next((e.resolved for e in q.events if e.kind == "return"), None)
+        if r is None:
+            outs.add(("none", None))
+        elif isinstance(r, ast.Constant) and isinstance(r.value, str):
+            outs.add(("type", r.value))
+        elif isinstance(r, ast.JoinedStr) and kind == "str":
+            outs.add(("type", "character"))
+        elif isinstance(r, ast.Name) and r.id not in q.env:
+            outs.add(("unbound", None))
+        elif isinstance(r, ast.Call) and isinstance(r.func, ast.Attribute) and norm(r.func.value) == "super()" and [norm(a) for a in r.args][:1] == [par]:
+            outs.add(("type", _dtype_of(ctx, chain, depth + 1, r.func.attr, kind, uns, prec)))
+        else:
+            raise Unrecognised(f"emitted type not a literal: {norm(r)[:100]}")
+    if len(outs) != 1:
+        raise Unrecognised(f"{len(outs)} different outcomes for the cell: {sorted(map(str, outs))[:3]}")
+    k, v = outs.pop()
+    if k == "type":
+        return v
+    if k == "raise":
+        return "<refused>"
+    return None
+
+
 def r1_type_ladders(ctx):
     cells = _domain(ctx)
     n = 0
     for lang, f, cname in BACKENDS:
-        fn = ctx.fn(CF + f, f"{cname}._parse_dtype")
         mod = ctx.repo.module(CF + f)
         chain = [(m, c) for m, c in ctx.repo.mro(mod, ctx.repo.cls(CF + f, cname))]
         for kind, uns, prec in cells:
-
-            def inherited(mname, _k=kind, _u=uns, _p=prec, _depth=[0]):
-                # the same cell evaluated on the next definition of the method along the MRO
-                _depth[0] += 1
-                defs = [(m, c, methods(c)[mname]) for m, c in chain if mname in methods(c)]
-                if _depth[0] >= len(defs):
-                    raise Unrecognised(f"super().{mname} has no further definition")
-                hh = LadderHandler(_k, _u, _p, on_super=inherited)
-                run_block(defs[_depth[0]][2].body, hh)
-                return hh.dtype
-            h = LadderHandler(kind, uns, prec, on_super=inherited)
             cell = f"{lang}: {'u' if uns else ''}{kind}{prec or ''}"
             try:
-                run_block(fn.body, h)
-            except Unrecognised as e:
+                dtype = _dtype_of(ctx, chain, 0, "_parse_dtype", kind, uns, prec)
+            except (Unrecognised, AnalysisError) as e:
                 ctx.unrecognised(CF + f, f"{cname}._parse_dtype", cell, str(e))
                 continue
             n += 1
-            if h.dtype is None:
+            if dtype is None:
                 ctx.violated(CF + f, f"{cname}._parse_dtype", f"type cell {cell}", detail="no type is bound on this path (UnboundLocalError at export time)",
                              expected="a mapping or an explicit refusal")
                 continue
-            t = TYPES[lang].get(h.dtype)
-            if h.dtype == "character" and kind == "str":
+            if dtype == "<refused>":
+                ctx.holds(CF + f, f"{cname}._parse_dtype", f"type cell {cell}", detail="explicit refusal")
+                continue
+            t = TYPES[lang].get(dtype)
+            if dtype == "character" and kind == "str":
                 ctx.holds(CF + f, f"{cname}._parse_dtype", f"type cell {cell}", detail="character(len=n)")
                 continue
             if t is None:
-                ctx.unrecognised(CF + f, f"{cname}._parse_dtype", f"type cell {cell}", f"target type {h.dtype!r} not in the language table")
+                ctx.unrecognised(CF + f, f"{cname}._parse_dtype", f"type cell {cell}", f"target type {dtype!r} not in the language table")
                 continue
-            want = (kind, prec, (not uns) if kind == "int" else None)
             ok = t[0] == kind and (prec is None or t[1] == prec) and (kind != "int" or t[2] == (not uns))
-            ctx.check(ok, CF + f, f"{cname}._parse_dtype", f"type cell {cell}", detail={"emitted": h.dtype, "means": list(t)},
+            ctx.check(ok, CF + f, f"{cname}._parse_dtype", f"type cell {cell}", detail={"emitted": dtype, "means": list(t)},
                       expected={"kind": kind, "bits": prec, "signed": (not uns) if kind == "int" else None})
     ctx.floor("type cells", n, 40)
-    # DIP text back-end: keyword reconstruction
+    # DIP text back-end: keyword reconstruction, by the same partial evaluation of one iteration of the parameter loop
+    from ..flowexpr import consistent, explore
     fn = ctx.fn(CF + "export.py", "ExportConfig.parse")
-    loops = [l for l in fn.body if isinstance(l, ast.For)]
-    if len(loops) != 1:
+    loops0 = [l for l in fn.body if isinstance(l, ast.For)]
+    if len(loops0) != 1 or not isinstance(loops0[0].target, ast.Tuple) or len(loops0[0].target.elts) != 2:
         ctx.unrecognised(CF + "export.py", "ExportConfig.parse", "loop", "parameter loop not found")
         return
-    chain = [s for s in loops[0].body if isinstance(s, ast.If) and "isinstance(param" in norm(s.test)]
+    par0 = loops0[0].target.elts[1].id
+    KW = {"StringNode.keyword": "str", "BooleanNode.keyword": "bool", "IntegerNode.keyword": "int", "FloatNode.keyword": "float"}
+    KIND = {"str": "StringType", "bool": "BooleanType", "int": "IntegerType", "float": "FloatType"}
     for kind, uns, prec in cells:
-        h = LadderHandler(kind, uns, prec)
         cell = f"dip: {'u' if uns else ''}{kind}{prec or ''}"
-        try:
-            run_block(chain, h)
-        except Unrecognised as e:
-            ctx.unrecognised(CF + "export.py", "ExportConfig.parse", cell, str(e))
-            continue
         dflt = {"int": 32, "float": 64}.get(kind)
         want = ("u" if uns else "") + kind + (str(prec) if prec and prec != dflt else "")
-        ctx.check(h.dtype == want, CF + "export.py", "ExportConfig.parse", f"type keyword cell {cell}", detail=h.dtype, expected=want)
+        env = {k: ast.Constant(value=v) for k, v in KW.items()}
+        env["IntegerType.precision"] = ast.Constant(value=32)
+        env["FloatType.precision"] = ast.Constant(value=64)
+        try:
+            ex = explore(fn, env=env)
+        except AnalysisError as e:
+            ctx.unrecognised(CF + "export.py", "ExportConfig.parse", cell, str(e))
+            continue
+        its = [t for lst in ex.iterations_all.values() for t in lst if t[0] is loops0[0]]
+        if not its:
+            ctx.unrecognised(CF + "export.py", "ExportConfig.parse", cell, "iteration of the parameter loop not explored")
+            continue
+        lp_, start, ips = its[0]
+        P = f"{par0}@loop1"
+
+        def atom(e, _k=kind, _u=uns, _p=prec if prec is not None else dflt):
+            k = norm(e)
+            if isinstance(e, ast.Call) and dotted_name(e.func) == "isinstance" and len(e.args) == 2 and norm(e.args[0]) == P:
+                t = e.args[1]
+                return KIND[_k] in [norm(x) for x in (t.elts if isinstance(t, (ast.Tuple, ast.List)) else [t])]
+            if k == f"{P}.unsigned":
+                return bool(_u)
+            if isinstance(e, ast.Compare) and len(e.ops) == 1 and norm(e.left) == f"{P}.precision" and isinstance(e.comparators[0], ast.Constant):
+                c = e.comparators[0].value
+                return {ast.Eq: _p == c, ast.NotEq: _p != c}.get(type(e.ops[0]))
+            if k in (f"{P}.unit", f"{P}.value", "value"):
+                return True
+            return None
+        cs, unk = consistent(ips, atom, start)
+        if unk and not cs:
+            ctx.unrecognised(CF + "export.py", "ExportConfig.parse", cell, f"condition not interpretable: {sorted(set(unk))[0][:100]}")
+            continue
+        got = set()
+        for q in cs:
+            d = q.env.get("dtype")
+            txt = None
+            if d is not None:
+                from ..flowexpr import reduce_ifexp, simplify
+                from ..normalise import clone as _clone
+                pv = prec if prec is not None else dflt
+
+                class Bind(ast.NodeTransformer):
+                    def visit_Attribute(self, n_):
+                        if norm(n_) == f"{P}.precision":
+                            return ast.Constant(value=pv)
+                        if norm(n_) == f"{P}.unsigned":
+                            return ast.Constant(value=bool(uns))
+                        return self.generic_visit(n_)
+                d2 = simplify(reduce_ifexp(simplify(Bind().visit(_clone(d))), atom))
+                txt = d2.value if isinstance(d2, ast.Constant) else norm(d2)
+            got.add(txt)
+        if len(got) != 1:
+            ctx.unrecognised(CF + "export.py", "ExportConfig.parse", cell, f"keyword not a single literal: {sorted(map(str, got))[:2]}")
+            continue
+        g = got.pop()
+        if not isinstance(g, str) or not g.replace("u", "").replace("int", "").replace("float", "").replace("str", "").replace("bool", "").isdigit() and g not in ("str", "bool", "int", "float", "uint"):
+            if not isinstance(g, str) or any(ch in g for ch in "()[]@ "):
+                ctx.unrecognised(CF + "export.py", "ExportConfig.parse", cell, f"keyword expression {g!r}")
+                continue
+        ctx.check(g == want, CF + "export.py", "ExportConfig.parse", f"type keyword cell {cell}", detail=g, expected=want)
 
 
 def r2_array_layout(ctx):
